@@ -15,7 +15,7 @@ KL_c04   == { <<"K1">>, <<"K4", "K1">>, <<>>, <<"KX", "K4", "K1">>, <<"KP", "K1"
 KL_c02   == { <<"K1">>, <<"K2", "K1">>, <<"K1b">>, <<"K4">>, <<"KX", "K1", "K4">>, <<"K4", "K1">>, <<"KP", "K1">> }
 \* every list of 1..N distinct keys from the pool
 Pool == {"K1", "K2", "K3", "K4", "K5", "K6", "KX"}
-KL_kp == { <<"KP", "K1">>, <<"K3", "KP", "K1">>, <<"K5", "K1", "KP">> }
+KL_kp == { <<"KP", "K1">>, <<"K3", "KP", "K1">>, <<"K5", "K1", "KP">>, <<"K8">>, <<"K2", "K8">>, <<"K8", "K1">>, <<"K5", "K8", "K3">> }
 RECURSIVE Perms(_, _)
 Perms(S, k) == IF k = 0 THEN { <<>> } ELSE UNION { { <<x>> \o t : t \in Perms(S \ {x}, k - 1) } : x \in S }
 \* quick: every list of up to 3 keys, plus every order of the two 4-key sets whose members all share the config id and a suite
@@ -33,7 +33,7 @@ NoneOp == {"none"}
 NoneUnlisted == {"none", "unlistedSuite"}
 StructOps == {"structOuter", "structInner"}
 OneKey == {"K1"}
-C09Clients == {"K1", "K3", "K5"}
+C09Clients == {"K1", "K3", "K5", "K8"}
 Pad2 == {"none", "zeros"}
 Pad1 == {"zeros"}
 Sid2 == {"", "s1", "s8"}      \* empty, 32 bytes, 8 bytes (a pre-TLS 1.3 session id)
